@@ -30,11 +30,17 @@ def extra(ctx, res):
     }
     for m, (own, other) in ROLE_TABLE.items():
         v = ctx.view(f"{cls}.{m}")
-        reads = [o for o in v.ops() if o.table in (own, other)]
-        res.check(any(o.table == own for o in reads), "K-ROLE", v.fi.short, f"reads {own}", own, f"{m} never reads {own}", loc(v.fi, v.fi.node))
-        for o in reads:
-            if o.table == other:
-                res.violation("K-ROLE", v.fi.short, norm(o.node), other, f"{m} reads {other}: source and target roles are mixed up", loc(v.fi, o.node))
+        # every mention of an adjacency table (read, iterated, or handed to a helper) and every read done by a helper
+        ment = [(tab, n) for _, tab, n, may in v.mentions() if tab in (own, other) and not may]
+        via = [(o.table, o.node) for o in v.call_ops() if o.table in (own, other) and not o.may]
+        seen = ment + via
+        if any(t == own for t, _ in seen):
+            res.ok("K-ROLE", v.fi.short, f"reads {own}", own, loc(v.fi, v.fi.node))
+        elif not any(t == other for t, _ in seen):
+            res.unknown("K-ROLE", v.fi.short, f"reads {own}", own, f"no reference to {own} found in {m} or its helpers", loc(v.fi, v.fi.node))
+        for t, n in seen:
+            if t == other:
+                res.violation("K-ROLE", v.fi.short, norm(n), other, f"{m} reads {other}: source and target roles are mixed up", loc(v.fi, n))
     for m, role in (("get_sources", "SRC"), ("get_targets", "TGT")):
         fi = ctx.require(f"{cls}.{m}")
         k = ctx.interp.analyse_entry(fi)
